@@ -21,9 +21,11 @@ pub(crate) fn engine_name() -> &'static str {
 }
 
 /// Registers the case about to be evaluated with the crash guard.
-pub(crate) fn note_case<C: serde::Serialize>(prop: &str, sub: &str, c: &C) {
+pub(crate) static PROP: std::sync::OnceLock<&'static str> = std::sync::OnceLock::new();
+
+pub(crate) fn note_case<C: serde::Serialize>(_prop: &str, sub: &str, c: &C) {
     let j = serde_json::to_string(c).unwrap_or_else(|_| "null".into());
-    crashguard::set_current(prop, engine_name(), sub, &j);
+    crashguard::set_current(PROP.get().copied().unwrap_or(_prop), engine_name(), sub, &j);
 }
 
 pub(crate) fn panic_text(e: Box<dyn std::any::Any + Send>) -> String {
@@ -63,14 +65,14 @@ pub(crate) fn split_panic(text: &str) -> (String, String) {
 
 fn rule_for(prop: &str) -> &'static str {
     match prop {
-        "C13" => "c13-task-seq: one task (spawn or spawn_and_forget) with a scripted future (0-7 poll steps: stash/drop/wake wakers, Ready, panic) and 0-30 handle operations (run, drop Runnable, wake by ref/by value, clone/drop waker, cancel, drop token, poll/drop Promise) against an exact model of the phase table (scheduling calls, polls, future/output drops, Promise::poll result, moment of the memory release); non-trivial = >=2 handle operations while a Runnable existed, or a wake-up during a poll. c13-task-conc: the same operations on 1 executor thread + 1-2 handle threads; non-trivial = external wake-ups were issued AND the task ran >=2 times; distinct = hash of the JSON case",
+        "C05" | "C13" => "c13-task-seq: one task (spawn or spawn_and_forget) with a scripted future (0-7 poll steps: stash/drop/wake wakers, Ready, panic) and 0-30 handle operations (run, drop Runnable, wake by ref/by value, clone/drop waker, cancel, drop token, poll/drop Promise) against an exact model of the phase table (scheduling calls, polls, future/output drops, Promise::poll result, moment of the memory release); non-trivial = >=2 handle operations while a Runnable existed, or a wake-up during a poll. c13-task-conc: the same operations on 1 executor thread + 1-2 handle threads; non-trivial = external wake-ups were issued AND the task ran >=2 times; distinct = hash of the JSON case",
         _ => "see DESIGN.md",
     }
 }
 
 fn assumptions_for(prop: &str) -> Vec<&'static str> {
     match prop {
-        "C13" => vec![
+        "C05" | "C13" => vec![
             "the sequential reference model of the task phase table in lowlab/src/harness/tasks.rs",
             "shuttle explores sequentially consistent interleavings only (every atomic is SeqCst); schedules are sampled by a seeded random / PCT scheduler, not enumerated",
             "task memory accounting: allocations of spawn() are served from a quarantine arena (double free, early/late/missing release and writes after release are seen; reads after release are not)",
@@ -124,6 +126,7 @@ fn replay(path: &str) -> i32 {
     let sub = v["sub"].as_str().unwrap_or("").to_string();
     let case = &v["case"];
     let p: &'static str = Box::leak(prop.into_boxed_str());
+    let _ = PROP.set(p);
     crashguard::install(p);
     match sub.as_str() {
         "c13-task-seq" => replay_one(&tasks::TaskSeqSub, p, case, path),
@@ -167,6 +170,7 @@ pub(crate) fn main() {
         std::process::exit(2);
     };
     let p: &'static str = Box::leak(p.into_boxed_str());
+    let _ = PROP.set(p);
     crashguard::install(p);
     let wd = std::env::var("VERIF_WATCHDOG_S").ok().and_then(|s| s.parse().ok()).unwrap_or(120);
     start_watchdog(wd);
